@@ -181,7 +181,19 @@ def shrink_graph(g):
 
 
 # ---- label families and insertion orders (C15 re-runs every property's cases through these) ----
-LABEL_FAMILIES = ["int", "bigint", "int257", "tuple", "frozenset", "str", "char", "mixed"]
+LABEL_FAMILIES = ["int", "bigint", "int257", "tuple", "frozenset", "str", "char", "mixed", "obj"]
+
+
+class NodeObj:
+    """a label with Python's default identity-based __eq__/__hash__ (e.g. a user 'Variable' object): two labels are the
+    same node only if they are the same object, so deep-copying a label turns it into a different node"""
+    __slots__ = ("v",)
+
+    def __init__(self, v):
+        self.v = v
+
+    def __repr__(self):
+        return "NodeObj(%r)" % (self.v,)
 
 
 def labeler(case=None):
@@ -201,6 +213,9 @@ def labeler(case=None):
         f = lambda v: "".join(["X", str(v), "q"])  # noqa: E731   (built at run time: not interned)
     elif fam == "char":
         f = lambda v: chr(ord("a") + v)  # noqa: E731
+    elif fam == "obj":     # identity-hashed objects: the same v must always map to the same object
+        _objs = {}
+        f = lambda v: _objs.setdefault(v, NodeObj(v))  # noqa: E731
     elif fam == "mixed":   # unorderable mix of types; includes the falsy labels 0, "" and ()
         f = lambda v: [0, "", (), "s3", 4, ("t", 5), frozenset({6}), "s7"][v] if v < 8 else (("m", v) if v % 2 else "".join(["m", str(v)]))  # noqa: E731
     else:
